@@ -818,5 +818,7 @@ def norm_type_text(toks, selfname='Self'):
         k = type_kind(arg)
         if len(arg) == 1 and is_id(arg[0], 'Self'):
             parts.append(ref + selfname); continue
-        parts.append(ref + (k if k else text(arg).replace(' ', '')))
+        t = k if k else text(arg).replace(' ', '')
+        if t in ('ExpType', 'crate::ExpType'): t = 'u32'
+        parts.append(ref + t)
     return ','.join(parts)
